@@ -70,7 +70,7 @@ def run(R):
         if v == 'confirmed':
             R.ob(name, 'discharged' if reach else 'not_discharged', dt / (2 * GROUP), {'twin': rmsg[:120]}, nontrivial=reach)
         elif v == 'refuted':
-            argn = ['i0', 'i1', 'i2', 'i3', 'f0', 'f1', 'k0', 'k1', 'k2', 'k3', 'b0', 'b1', 'b2', 'm0', 'm1', 'm2', 'm3', 'm4',
+            argn = ['i0', 'i1', 'j0', 'j1', 'j2', 'p0', 'p1', 'f0', 'f1', 'k0', 'k1', 'k2', 'k3', 'b0', 'b1', 'b2', 'm0', 'm1', 'm2', 'm3', 'm4',
                     'n0', 'n1', 'n2']
             args = chrun.parse_counterexample(msg, argn)
             if args is None:
@@ -97,7 +97,7 @@ def run(R):
 def concrete(H, k, args, dict_missing):
     a = args
     try:
-        val = H.value(k, [a['i0'], a['i1'], a['i2'], a['i3']], [a['f0'], a['f1']], [a['k0'], a['k1'], a['k2'], a['k3']],
+        val = H.value(k, [a['i0'], a['i1'], a['j0'], a['j1'], a['j2'], a['p0'], a['p1']], [a['f0'], a['f1']], [a['k0'], a['k1'], a['k2'], a['k3']],
                       [a['b0'], a['b1'], a['b2']], [a['m0'], a['m1'], a['m2'], a['m3'], a['m4']], [a['n0'], a['n1'], a['n2']],
                       dict_missing)
     except Exception as e:  # noqa: BLE001
